@@ -1,5 +1,5 @@
 import os, sys, itertools, re, json
-from vf import Check, Stream, first_diff, build_harness, build_libnstd, sh, VERIF, BUILD, REPO, log
+from vf import Check, Stream, first_diff, build_harness, build_libnstd, run_exe_on_cases, sh, VERIF, BUILD, REPO, log
 
 NV = 6
 FLAVS = ('str', 'var', 'ptr', 'xml')
@@ -218,6 +218,19 @@ class C09(Check):
             'distinct = distinct op text')
     assumptions = ['sequential consistency of the __sync_* builtins and of the plain reads of `ref` (concurrent clause)',
                    'operator new / delete[] behave as allocation and release of disjoint blocks']
+
+    def run_impl(self, cases, tag='impl'):
+        # chunks: a broken tree may crash on most cases of an exhaustive stream; every crash restarts the
+        # harness and vf.py gives up after 400 restarts per call
+        res, crashes = [], {}
+        step = 300
+        for i in range(0, len(cases), step):
+            r, c = run_exe_on_cases(self.exes['impl'], cases[i:i + step], os.path.join(BUILD, self.id, 'run'), tag, is_impl=True,
+                                    per_case_timeout=self.per_case_timeout)
+            res += r
+            for k, v in c.items():
+                crashes[i + k] = v
+        return res, crashes
 
     # ---- oracle -------------------------------------------------------------------------------
     def judge(self, cases, impl_obs, spec_obs):
